@@ -168,6 +168,13 @@ PeerClose(s, how) ==
     /\ socks' = [socks EXCEPT ![s].pclose = how, ![s].a2c = Append(@, <<how, 0>>)]
     /\ UNCHANGED <<now, cur, sem, semQ, reqs, evLog, unsol, wantUp>>
 
+\* an accessory that had only shut down its sending side (FIN) finally dies: the reset reaches a socket whose FIN may
+\* never have been read (closing transport with unflushed data)
+PeerAbort(s) ==
+    /\ s \in Socks /\ socks[s].pclose = "fin"
+    /\ socks' = [socks EXCEPT ![s].pclose = "rst", ![s].a2c = Append(@, <<"rst", 0>>)]
+    /\ UNCHANGED <<now, cur, sem, semQ, reqs, evLog, unsol, wantUp>>
+
 \* the transport reads the next message of socket s (only while not closing)
 CtrlRead(s) ==
     /\ s \in Socks /\ socks[s].st = "up" /\ socks[s].a2c # << >>
@@ -197,7 +204,9 @@ CtrlRead(s) ==
 
 \* protocol.connection_lost for socket s
 \* (a transport with unflushed bytes reports the loss only once the socket has died)
-LossDue(s) == socks[s].st = "closing" /\ ~socks[s].lostRun /\ (socks[s].blocked => socks[s].pclose # "no")
+\* (a transport that is closing with unflushed data has stopped reading: a FIN from the peer is not seen, only a reset -
+\* which makes the pending write fail - ends it; otherwise it lingers until the requests' own 30 s timers have fired)
+LossDue(s) == socks[s].st = "closing" /\ ~socks[s].lostRun /\ (socks[s].blocked => socks[s].pclose = "rst")
 LostCallback(s) ==
     /\ s \in Socks /\ LossDue(s)
     /\ reqs' = FailPending(reqs, socks, s)
@@ -238,7 +247,7 @@ Init == /\ now = 0 /\ socks = << >> /\ cur = 0 /\ sem = {} /\ semQ = << >>
 Next ==
     \/ \E r \in Reqs, werr \in BOOLEAN : Issue(r, werr, FALSE) \/ Issue(r, werr, TRUE) \/ CallerCancel(r) \/ ReqRun(r, werr) \/ TimerFire(r)
     \/ \E s \in 1..Len(socks) : AccPause(s) \/ AccRecv(s) \/ AccRespond(s, "resp") \/ AccRespond(s, "half") \/ AccRespond(s, "rest") \/ AccEvent(s)
-                               \/ AccUnsolicited(s) \/ PeerClose(s, "fin") \/ PeerClose(s, "rst")
+                               \/ AccUnsolicited(s) \/ PeerClose(s, "fin") \/ PeerClose(s, "rst") \/ PeerAbort(s)
                                \/ CtrlRead(s) \/ LostCallback(s)
     \/ SessionUp \/ UserClose \/ UserOpen
 Spec == Init /\ [][Next]_vars
